@@ -103,3 +103,34 @@ def hsQuiescent (w : List Link) : Bool :=
   w.all (fun l => l.openA == l.openB && (!l.openA || (l.authA && l.authB)))
 
 end Election
+
+/-! ## Late dials (round 4)
+
+`hsInit` fixes the connection set before the run starts. Here connections are dialled at any
+time — before, between and after the handshakes of the others, also when a link is already up and
+ready: `DOp.dial c` appends a fresh, not yet authenticated link; `DOp.hs op` is a step of
+`hsStep` on the connections dialled so far (a step naming a connection that does not exist yet
+does nothing). -/
+
+namespace Election
+
+inductive DOp
+  | dial (c : Conn)
+  | hs (op : HOp)
+  deriving Repr, DecidableEq
+
+/-- state: the connections dialled so far, and their links -/
+def dStep (o : Ordering) (s : List Conn × List Link) : DOp → List Conn × List Link
+  | .dial c => (s.1 ++ [c], s.2 ++ [{ c := c }])
+  | .hs op => (s.1, hsStep o s.2 op)
+
+def dRun (o : Ordering) (ops : List DOp) : List Conn × List Link :=
+  ops.foldl (dStep o) ([], [])
+
+/-- the connections an op sequence dials, in order -/
+def dials : List DOp → List Conn
+  | [] => []
+  | .dial c :: rest => c :: dials rest
+  | .hs _ :: rest => dials rest
+
+end Election
